@@ -309,7 +309,7 @@ func vfStream(t *testing.T, tr *vkTrace, dir string, v vfVec) {
 			premise = false
 		}
 		frame := vfMakeFrame(r, v.Codec, f, withTD)
-		ts := uint32(f.Tsh)<<16 | uint32(f.Tsl) //nolint:gosec
+		ts := uint32(f.Tsh)<<16 | uint32(f.Tsl)             //nolint:gosec
 		payloads := payloader.Payload(uint16(v.Mtu), frame) //nolint:gosec
 		if len(payloads) == 0 {
 			premise = false // the payloader refused the frame: nothing is sent for it
@@ -461,8 +461,8 @@ func vfStream(t *testing.T, tr *vkTrace, dir string, v vfVec) {
 	}
 
 	tr.Emit(vkM{"ev": "hdr", "t": v.ID, "sig": "hdr(" + sigCfg + ")",
-		"cfg":      vkM{"codec": vfCodecName(v.Codec), "w": v.W, "h": v.H, "num": vfInt(uint64(v.Num)), "den": vfInt(uint64(v.Den))},
-		"rd":       rd, "raw": raw, "seekable": seekable, "nfile": len(rawFrames), "premise": premise,
+		"cfg": vkM{"codec": vfCodecName(v.Codec), "w": v.W, "h": v.H, "num": vfInt(uint64(v.Num)), "den": vfInt(uint64(v.Den))},
+		"rd":  rd, "raw": raw, "seekable": seekable, "nfile": len(rawFrames), "premise": premise,
 		"defaults": vkM{"codec": !explicitCodec, "rate": defRate, "dim": defDim}, "cerr": cerr})
 
 	n := len(exp)
